@@ -8,6 +8,9 @@
 (*   parse  outcome of parse(text): ok | parse_error | empty | panic | ... *)
 (*   evo    outcome of evaluating the text (none when not evaluated)       *)
 (*   val    the value it evaluated to                                      *)
+(*   mode   "full", or "protocol" for the very long inputs whose text is   *)
+(*          not shipped (delimiter towers, 10^4-digit decimals): only the  *)
+(*          outcomes are judged                                            *)
 (* The specification runs its own lexer (Lexer!Lex) on the logged text and *)
 (* compares: the protocol part (lex returns, parse returns ok /            *)
 (* parse_error / empty) is required of EVERY event; the token list, the    *)
@@ -23,12 +26,11 @@ VARIABLE l
 vars == <<l>>
 
 SameTok(e, o) == e.k = o.k /\ (e.k \in {"Comment", "Invalid"} \/ e = o)
-RECURSIVE FirstDiff(_, _, _)
 \* 0 when the lists agree, else the first index at which they differ
 FirstDiff(es, os, j) ==
-    IF j > Len(es) /\ j > Len(os) THEN 0
-    ELSE IF j > Len(es) \/ j > Len(os) THEN j
-    ELSE IF SameTok(es[j], os[j]) THEN FirstDiff(es, os, j + 1) ELSE j
+    LET n == IF Len(es) >= Len(os) THEN Len(es) ELSE Len(os)
+        bad == {i \in j..n : i > Len(es) \/ i > Len(os) \/ ~SameTok(es[i], os[i])}
+    IN IF bad = {} THEN 0 ELSE CHOOSE i \in bad : \A i2 \in bad : i <= i2
 
 Protocol(ev) == ev.lexo = "ok" /\ ev.parse \in ParseOutcomes
 
@@ -38,7 +40,7 @@ NoTok == [k |-> "(end of token list)"]
 Check(ev) ==
     LET fin == Lex(ev.text)
     IN IF ~Protocol(ev) THEN Report(ev, [why |-> "protocol", at |-> 0, tok |-> NoTok])
-       ELSE IF fin.mode = "unk" THEN TRUE
+       ELSE IF ev.mode = "protocol" \/ fin.mode = "unk" THEN TRUE
        ELSE LET d == FirstDiff(fin.toks, ev.toks, 1)
                 nc == NonComment(fin.toks)
             IN IF d # 0 THEN Report(ev, [why |-> "tokens", at |-> d,
